@@ -124,3 +124,115 @@ def same(im, mo):
         return True
     return (im[1] == mo[1] and im[2] == mo[2]
             and [diag_key(d) for d in im[3]] == [diag_key(d) for d in mo[3]])
+
+
+# ---------------- tex2txt() level ----------------
+
+class T2T(Case):
+    def __init__(self, latex, repl=None, unkn=False, thresh=3, **kw):
+        super().__init__(latex, **kw)
+        self.repl = repl; self.unkn = unkn; self.thresh = thresh
+
+    def key(self):
+        return super().key() + (tuple(self.repl or ()), self.repl is None,
+                                self.unkn, self.thresh)
+
+    def json(self):
+        j = super().json()
+        j.update({'repl': self.repl, 'unkn': self.unkn, 'thresh': self.thresh})
+        return j
+
+    @staticmethod
+    def from_json(j):
+        return T2T(j['latex'], j.get('repl'), j.get('unkn', False),
+                   j.get('thresh', 3), lang=j.get('lang', 'en'),
+                   pack=j.get('pack', '*'), dcls=j.get('dcls', ''),
+                   defs=j.get('defs', ''), extr=j.get('extr', ''),
+                   seqs=j.get('seqs', False), nosp=j.get('nosp', False),
+                   multi=j.get('multi', False), files=j.get('files'))
+
+
+class Hang(Exception):
+    pass
+
+
+def _alarm(signum, frame):
+    raise Hang()
+
+
+def run_t2t(c, timeout=20):
+    """('OK', result, diags) with result ('S', txt, pos) or ('M', [(lang,
+    [(txt, pos)])]); files of the case must exist on disk under their names"""
+    import signal
+    signal.signal(signal.SIGALRM, _alarm)
+    signal.alarm(timeout)
+    try:
+        return _run_t2t(c)
+    except Hang:
+        return ('HANG', 'no result within %d s' % timeout)
+    finally:
+        signal.alarm(0)
+
+
+def _run_t2t(c):
+    err = io.StringIO()
+    try:
+        with contextlib.redirect_stderr(err):
+            o = tex2txt.Options(lang=c.lang, pack=c.pack, dcls=c.dcls,
+                                defs=c.defs, extr=c.extr or None, seqs=c.seqs,
+                                nosp=c.nosp, repl=c.repl, unkn=c.unkn)
+
+            def mod(parms):
+                parms.ml_continue_thresh = c.thresh
+            r = tex2txt.tex2txt(c.latex, o, multi_language=c.multi,
+                                modify_parms=mod)
+        diags = [(int(a), int(b), m) for a, b, m in DIAG.findall(err.getvalue())]
+        if c.multi:
+            res = ('M', [(lang, [(p[0], list(p[1])) for p in parts])
+                         for lang, parts in r.items()])
+        else:
+            res = ('S', r[0], list(r[1]))
+        return ('OK', res, diags)
+    except SystemExit:
+        return ('FATAL', err.getvalue()[-200:])
+    except Hang:
+        raise
+    except RecursionError:
+        return ('EXC', 'RecursionError')
+    except Exception as e:
+        return ('EXC', type(e).__name__ + ': ' + str(e)[:100])
+
+
+def model_line_t2t(c, fuel=FUEL):
+    mods = [(1, m) for m in (c.dcls.split(',') if c.dcls else [])]
+    mods += [(0, m) for m in expand_packs(c.pack)]
+    extr = ['\\' + s for s in c.extr.split(',')] if c.extr else []
+    return 'tex2txt %d %s %s %d %d %s %s %s %s %d %s %d %d %d' % (
+        1 if c.nosp else 0,
+        core.enc_list(list(c.files.items()),
+                      lambda e: core.enc_str(e[0]) + ' ' + core.enc_str(e[1])),
+        core.enc_str(c.lang or ''), 1 if c.multi else 0, 1 if c.seqs else 0,
+        core.enc_list(mods, lambda m: '%d %s' % (m[0], core.enc_str(m[1]))),
+        core.enc_str(c.defs or ''), core.enc_str(c.latex),
+        core.enc_list(extr, core.enc_str),
+        0 if c.repl is None else 1, core.enc_list(c.repl or [], core.enc_str),
+        1 if c.unkn else 0, c.thresh, fuel)
+
+
+def parse_model_t2t(o):
+    r = core.Reader(o)
+    tag = r.word()
+    if tag == 'OK':
+        k = r.int()
+        if k == 0:
+            res = ('S', r.str(), r.ints())
+        else:
+            res = ('M', r.list(lambda: (r.str(), r.list(lambda: (r.str(), r.ints())))))
+        un = r.list(r.str)
+        ds = tokens.rd_diags(r)
+        return ('OK', res, ds, un)
+    if tag == 'EXC':
+        return ('EXC', r.word())
+    if tag == 'FATAL':
+        return ('FATAL', r.int())
+    return (tag,)
